@@ -61,6 +61,13 @@ def gen_data(rng, dup_share):
         g["tiers"][k]["name"] = g["tiers"][rng.randrange(0, k)]["name"]
         if len(g["tiers"]) > 2 and rng.random() < 0.5:
             g["tiers"][-1]["name"] = g["tiers"][0]["name"] + ("_2" if rng.random() < 0.5 else "")
+        if len(g["tiers"]) > 2 and rng.random() < 0.5:
+            # a duplicated name next to a genuinely distinct tier that already carries the suffixed name
+            base = g["tiers"][0]["name"]
+            pattern = rng.choice([[base, base + "_2", base], [base, base, base + "_2"], [base + "_2", base, base],
+                                  [base, base + "_2", base + "_3", base, base], [base, base, base, base + "_3"]])
+            for t, nm in zip(g["tiers"], pattern):
+                t["name"] = nm
     toks = {}
     for k in range(n + 1):
         toks[k] = numtok(rng, vals[k], first=(k == 0))
